@@ -89,7 +89,7 @@ func runSeqEnum(seed uint64, index int64, o hx.Opts) *hx.Result {
 	var count int64
 	var sample []string
 	v := w.Run(func() {
-		v6Addrs = false
+		v6Addrs, tailTwin = false, false
 		rt.JumpClock(1)
 		cl := &client{}
 		// every length 1..depth: sequences of length < depth are prefixes, so checking after each step covers them
